@@ -9902,7 +9902,8 @@ lyxp_set_cast(struct lyxp_set *set, enum lyxp_set_type target)
             } else if (isinf(set->val.num) && signbit(set->val.num)) {
                 set->val.str = strdup("-Infinity");
                 LY_CHECK_ERR_RET(!set->val.str, LOGMEM(set->ctx), -1);
-            } else if ((long long)set->val.num == set->val.num) {
+            } else if ((set->val.num > -9223372036854775808.0L) && (set->val.num < 9223372036854775808.0L) &&
+                    ((long long)set->val.num == set->val.num)) {
                 if (asprintf(&str, "%lld", (long long)set->val.num) == -1) {
                     LOGMEM_RET(set->ctx);
                 }
